@@ -585,6 +585,9 @@ var _ *multierror.Error
 //@   loop 1 invariant separate: arr(cleanedLines) != arr($s)
 //@   loop 1 invariant cleaned_as_stated: forall k int :: 0 <= k && k < $i ==> cleanedLines[k] == cleanedOf($s[k])
 //@   loop 1 invariant cleaned_is_prefix: forall k int :: 0 <= k && k < $i ==> hasPrefix($s[k], cleanedLines[k])
+//@   -- C03 "full-line and trailing comments", "CRLF line ends": the pre-pass works on LINES of the input - what it cuts at " #" ends at
+//@   -- the next line feed, whatever mix of CRLF and LF the document uses
+//@   loop 1 invariant one_line_each: forall k int :: 0 <= k && k < len($s) ==> !contains($s[k], "\n")
 //@   loop 1 invariant lines_kept: forall k int :: 0 <= k && k < len($s) ==> $s[k] == pre($s[k])
 
 // ---------------------------------------------------------------------------------------------------------------
